@@ -23,6 +23,13 @@
         current source) or 1..64; first, last < 2^32; last-first ≤ 2^24 (else bad-op).  The loop gets
         last-first+2 condition evaluations (2 if first > last).
         → `ok <count>` | `hang`
+    walkconf <first> <last> <conf>
+        what a request-driven site (NodeSubnetsByIPRanges / AllocateInSubnetsAndIPRange / ByKeyAndIPRanges) walks for ONE
+        requested range first~last when the configured pool ranges are <conf> = '-' or a comma separated list of
+        `<lo>-<hi>` (naturals < 2^32, total size ≤ 65536), callback never stops: `walkRequest` — the clipped walk of
+        walkConfiguredIPRanges when the regenerated fact requestWalksAreClipped holds, else the raw requested range
+        (`hang` when that is longer than 65536 addresses).
+        → `ok <ip,ip,…>` (decimal, in visiting order; `ok -` when none) | `hang`
     pagin <page:str> <size:str> <len:nat>
         ListIPs pagination for the raw query values `page`, `size` ('-' = parameter absent / empty) and a result
         list of <len> entries: ParsePage, ParseSize (strconv.Atoi, 64-bit), paginationResult, pagin, fips[start:end].
@@ -171,6 +178,14 @@ def refName : SetRef → String
 
 def okErr (r : Except Panic Bool) : String := render r (fun b => if b then "ok" else "err")
 
+def parseRange (r : String) : Option (Nat × Nat) :=
+  match r.splitOn "-" with
+  | [a, b] =>
+    match parseNat a, parseNat b with
+    | some x, some y => some (x, y)
+    | _, _ => none
+  | _ => none
+
 def run (ws : List String) : Option String :=
   match ws with
   | ["walk", w, f, l] => do
@@ -182,6 +197,15 @@ def run (ws : List String) : Option String :=
       match walkW bits last (last - first + 2) first 0 with
       | some n => some ("ok " ++ toString n)
       | none => some "hang"
+  | ["walkconf", f, l, c] => do
+    let first ← parseNat f
+    let last ← parseNat l
+    let conf ← if c = "-" then some [] else (c.splitOn ",").mapM parseRange
+    if first ≥ 2 ^ 32 || last ≥ 2 ^ 32 || confSize conf > 65536 || conf.any (fun r => r.1 ≥ 2 ^ 32 || r.2 ≥ 2 ^ 32) then none
+    else if !Generated.Total.requestWalksAreClipped && last - first > 65536 then some "hang"
+    else
+      let ips := walkRequest conf first last
+      some (if ips.isEmpty then "ok -" else "ok " ++ String.intercalate "," (ips.map toString))
   | ["pagin", p, s, n] => do
     let p ← unesc p
     let s ← unesc s
